@@ -425,10 +425,12 @@ class Runner(IOOpsMixin):
             allowed = set(rec.get("_expected_files", [])) if rec["status"] == "ok" and not injected else None
             wset = set(writes)
             for k in changed:
-                if k not in wset:
+                if allowed is not None and kind in ("calc.write", "cli.run"):
+                    # a writing operation is judged by WHAT changed (how it got there -- open, rename, another API -- is cij's business)
+                    if k not in allowed:
+                        self.verdict("O-frame", "C15", client, i, f"{kind} changed {k}, which is not among the files its keywords denote", expected=sorted(allowed))
+                elif k not in wset:
                     self.verdict("O-frame", "C15", client, i, f"file {k} changed although the operation never opened it for writing")
-                elif allowed is not None and kind in ("calc.write", "cli.run") and k not in allowed:
-                    self.verdict("O-frame", "C15", client, i, f"{kind} changed {k}, which is not among the files its keywords denote", expected=sorted(allowed))
             if allowed is not None and kind in ("calc.write", "cli.run"):
                 for k in sorted(allowed - wset):
                     if k not in after:
@@ -500,7 +502,7 @@ class Runner(IOOpsMixin):
             p = numpy.asarray(probe.volume_base.pressures, dtype=float) * U.FACTORS[("ry/bohr3", "GPa")]
         finally:
             self.seams.ctx.client = saved
-        top = float(p.max(axis=1).min())
+        top = float(min(p.max(axis=1).min(), p[:, -1].min()))     # never above the bound cij itself applies (smallest over the rows of the last column)
         q = dict(W.effective_qha(w))
         pmin, ntv = float(q["P_MIN"]), int(q["NTV"])
         if not (numpy.isfinite(top) and top > pmin + 1e-6):
@@ -560,12 +562,12 @@ class Runner(IOOpsMixin):
             if name == "config":
                 return ("json", json.dumps(calc.config, sort_keys=True, default=str))
             if name == "modulus_keys":
-                return ("json", json.dumps(["%d%d" % k.v for k in calc.modulus_keys]))
+                return ("json", json.dumps(sorted("%d%d" % k.v for k in calc.modulus_keys)))     # the set of keys; their order is not a result
             if name == "qha_input":
                 return ("json", repr(calc.qha_input))
             if name == "elast_data":
                 ed = calc.elast_data
-                return ("json", repr((ed.vref, ed.nv, ed.cellmass, [(v.volume, [(("%d%d" % k.v) if hasattr(k, "v") else repr(k), float(x)) for k, x in v.static_elastic_modulus.items()]) for v in ed.volumes], ed.lattice_parmeters)))
+                return ("json", repr((ed.vref, ed.nv, ed.cellmass, [(v.volume, sorted((("%d%d" % k.v) if hasattr(k, "v") else repr(k), float(x)) for k, x in v.static_elastic_modulus.items())) for v in ed.volumes], ed.lattice_parmeters)))
             if name.startswith("mode_gamma"):
                 return ("arr", calc.mode_gamma[int(name[-1])])
             return ("arr", getattr(calc, name))
@@ -818,9 +820,17 @@ class Runner(IOOpsMixin):
                         fname = cfg.get("fname") or r["pattern"].format(base=base, ij=key)
                         out.append({"fname": fname, "base": base, "rule": r, "key": key, "factor": factor, "unit": unit, "kw": cfg["keyword"]})
         last = {}
+        bases_of = {}
         for e in out:
             last[e["fname"]] = e
-        return list(last.values())
+            bases_of.setdefault(e["fname"], set()).add(e["base"])
+        res = list(last.values())
+        for e in res:
+            if len(bases_of[e["fname"]]) > 1:
+                # one file name denoted by entries of both bases: the order in which write_output serves the bases is documented nowhere,
+                # so either table is acceptable -- existence and well-formedness only (C14 still demands that it is the SAME one every time)
+                e["ambiguous"] = True
+        return res
 
     def _memory_value(self, h, e):
         from cij.util import c_
@@ -863,7 +873,7 @@ class Runner(IOOpsMixin):
             except OSError:
                 b = None
             sig = (e["base"], e["rule"]["attr"], e["key"], e["unit"])
-            if b is not None:
+            if b is not None and not e.get("ambiguous"):
                 if sig in h.write_bytes:
                     self.probe("rewrite_same_variable")
                     if h.write_bytes[sig][1] != e["kw"]:
@@ -916,6 +926,9 @@ class Runner(IOOpsMixin):
             t = TB.parse_table_numeric(text)
         except Exception as ex:
             self.verdict("O-disk", "C15", client, i, f"{tag}{relp} is not a well-formed table: {ex}")
+            return
+        if e.get("ambiguous"):
+            self.probe("disk_file_shared_by_both_bases_wellformed_only")
             return
         nt, ntv = int(q["NT"]), int(q["NTV"])
         if len(t["rows"]) != nt:
@@ -1028,11 +1041,11 @@ class Runner(IOOpsMixin):
                                  config=cfg, sig="ad-nonfinite")
                     return
             if t[0] == 0:
-                if not numpy.array_equal(ad[0], iso[0]):
+                if not float(numpy.max(numpy.abs(ad[0] - iso[0]))) <= 1e-13 * (float(numpy.max(numpy.abs(iso))) or 1.0):
                     self.verdict("O-inv", "C12", client, i, f"at T=0 adiabatic c{ks} differs from isothermal c{ks} (thermal term does not vanish)", config=cfg, sig="t0-gap")
                     return
                 if len(t) > 1 and 0 < t[1] <= 2.0:
-                    scale = float(numpy.max(numpy.abs(iso))) or 1.0
+                    scale = max([float(numpy.max(numpy.abs(numpy.asarray(calc.modulus_isothermal[k2])))) for k2 in calc.modulus_keys] + [1e-300])   # the tensor's scale, not the component's
                     d = float(numpy.max(numpy.abs(iso[1] - iso[0])))
                     if not d <= 1e-6 * scale:
                         self.verdict("O-inv", "C12", client, i,
@@ -1067,6 +1080,8 @@ class Runner(IOOpsMixin):
                 try:
                     a = numpy.asarray(getattr(calc.volume_base, name))
                 except Exception as e:
+                    if self._injected_now() or "injected" in str(e):
+                        raise       # a still-armed injected fault went off inside the monitor's own read: the fault's failure, not cij's
                     self.verdict("O-inv", "C12", client, i, f"volume_base.{name} raised {type(e).__name__}: {norm_msg(e, self.root)}", config=cfg)
                     return
                 if a.dtype.kind == "c" or not numpy.isfinite(a[pd]).all():
@@ -1093,7 +1108,7 @@ class Runner(IOOpsMixin):
     # -- O-round (C17) on calculator inputs ---------------------------------------
     def _check_round_calc(self, client, i, h):
         from . import oracles_io
-        oracles_io.check_qha_input(self, client, i, h.calc.qha_input, h.world["phonon"], "calc.qha_input")
+        oracles_io.check_qha_input(self, client, i, h.calc.qha_input, h.world["phonon"], "calc.qha_input", rel=4e-16)
         if h.world["settings"]["elast"]["settings"].get("symmetry", {}).get("system", "triclinic") == "triclinic":
             oracles_io.check_elast_data(self, client, i, h.calc.elast_data, h.world["static"], "calc.elast_data")
 
